@@ -37,6 +37,7 @@ func TestC02(t *testing.T) {
 
 		scripted(t, c)
 		stress(t, c)
+		establishmentRaces(c)
 	})
 }
 
@@ -422,4 +423,176 @@ func stressRun(c *vk.C, k int) {
 	if k == 0 {
 		c.Sample(map[string]any{"mode": "stress", "target": target, "config": cfg.String(), "writes": len(g), "watchers": len(cons), "errored": errored})
 	}
+}
+
+// ---------------------------------------------------------------------------------------------
+// establishment races: watches with bootstrap contents are opened over and over while a writer keeps committing. Each of them must
+// deliver a snapshot that is the state after some prefix G[:s] (s between what was committed before the call and at its return)
+// followed by exactly G[s:] - nothing that commits while the watch is being set up may fall between snapshot and stream.
+func establishmentRaces(c *vk.C) {
+	runs := c.N(6, 300)
+
+	var wg sync.WaitGroup
+
+	sem := make(chan struct{}, 4)
+
+	for k := 0; k < runs; k++ {
+		wg.Add(1)
+		sem <- struct{}{}
+
+		go func() {
+			defer wg.Done()
+			defer func() { <-sem }()
+
+			establishmentRace(c, k)
+		}()
+	}
+
+	wg.Wait()
+}
+
+func establishmentRace(c *vk.C, k int) {
+	rng := rand.New(rand.NewPCG(uint64(c.Seed), uint64(9_800_000+k)))
+	capacity := 8192
+
+	ctx, cancel := context.WithCancel(context.Background())
+	defer cancel()
+
+	factory := inmem.NewStateWithOptions(inmem.WithHistoryInitialCapacity(capacity), inmem.WithHistoryMaxCapacity(capacity), inmem.WithHistoryGap(8))
+
+	var st state.CoreState = factory("ns")
+	if k%2 == 1 {
+		st = namespaced.NewState(func(ns resource.Namespace) state.CoreState { return factory(ns) })
+	}
+
+	w := wl.NewWorld(st, "ns", res.TypeA, "e")
+	ids := []string{"x", "y", "z", "u"}
+
+	var (
+		writerDone atomic.Bool
+		wwg, owg   sync.WaitGroup
+		recsMu     sync.Mutex
+		recs       []*wl.Rec
+	)
+
+	wwg.Add(1)
+
+	go func() {
+		defer wwg.Done()
+		defer writerDone.Store(true)
+
+		for i := 0; i < 3000; i++ {
+			id := ids[rng.IntN(len(ids))]
+			kind := wl.OpUpdate
+
+			switch {
+			case !w.Exists(id):
+				kind = wl.OpCreate
+			case rng.IntN(8) == 0:
+				kind = wl.OpDestroy
+			}
+
+			if _, err := w.Write(ctx, kind, id, nil); err != nil {
+				c.Violation("write-failed", map[string]any{"err": err.Error()})
+
+				return
+			}
+
+			if i%4 == 0 {
+				time.Sleep(time.Duration(rng.IntN(40)) * time.Microsecond)
+			}
+		}
+	}()
+
+	for o := 0; o < 4; o++ {
+		owg.Add(1)
+
+		r := rand.New(rand.NewPCG(uint64(c.Seed), uint64(9_900_000+k*10+o)))
+
+		go func() {
+			defer owg.Done()
+
+			for n := 0; n < 60 && !writerDone.Load(); n++ {
+				rec := &wl.Rec{Kind: []string{"kind", "agg"}[r.IntN(2)], Boot: true, FromIdx: -2, Name: fmt.Sprintf("e%d-%d", o, n)}
+				wctx, wcancel := context.WithCancel(ctx)
+				ch := make(chan state.Event)
+				agg := make(chan []state.Event)
+				md := resource.NewMetadata("ns", res.TypeA, "", resource.VersionUndefined)
+
+				rec.Lo = w.Len()
+
+				var err error
+				if rec.Kind == "kind" {
+					err = st.WatchKind(wctx, md, ch, state.WithBootstrapContents(true))
+				} else {
+					err = st.WatchKindAggregated(wctx, md, agg, state.WithBootstrapContents(true))
+				}
+
+				rec.Hi = w.Len()
+
+				if err != nil {
+					wcancel()
+					c.Violation("watch-establish-failed", map[string]any{"err": err.Error(), "rec": rec})
+
+					return
+				}
+
+				// the snapshot, then a few live events (or until the stream has been idle for a while)
+				live, batch := 0, 0
+				want := 2 + r.IntN(6)
+
+				for live < want {
+					var evs []state.Event
+
+					select {
+					case ev := <-ch:
+						evs = []state.Event{ev}
+					case evs = <-agg:
+					case <-time.After(30 * time.Millisecond):
+						live = want
+					}
+
+					batch++
+
+					for _, ev := range evs {
+						e := w.Convert(ev, batch)
+						rec.Append(e)
+
+						if e.Idx >= 0 {
+							live++
+						}
+					}
+				}
+
+				wcancel()
+
+				recsMu.Lock()
+				recs = append(recs, rec)
+				recsMu.Unlock()
+
+				time.Sleep(time.Duration(r.IntN(300)) * time.Microsecond)
+			}
+		}()
+	}
+
+	owg.Wait()
+	wwg.Wait()
+
+	g := w.Log()
+	during := 0
+
+	for _, rec := range recs {
+		ps, _ := wl.CheckRec(g, rec, capacity, false)
+		for _, p := range ps {
+			c.Violation(p.Sig, map[string]any{"mode": "establishment-race", "run": k, "problem": p, "rec": rec, "log_len": len(g)})
+		}
+
+		if rec.Hi > rec.Lo {
+			during++
+		}
+	}
+
+	c.Count("bootstrap_watches_opened_under_writes", len(recs))
+	c.Count("bootstrap_watches_with_commit_during_establishment", during)
+	c.Case(vk.Hash("establishment-race", k, len(g), len(recs), during), during > 0)
 }
